@@ -1301,7 +1301,9 @@ pub fn run(tier: Tier) -> i32 {
             ("usize", "", true),
         ];
         // H = hole, T = type; x and y are parameters of type T, c is a bool
-        let templates: [(&str, &str, &str); 30] = [
+        let templates: [(&str, &str, &str); 32] = [
+            ("condition", "T", "  if H { x } else { y }\n"),
+            ("condition of an if statement", "T", "  let mut r = x;\n  if H {\n    r = y;\n  }\n  r\n"),
             ("x==H", "bool", "  x == H\n"),
             ("H==x", "bool", "  H == x\n"),
             ("x!=H", "bool", "  x != H\n"),
@@ -1338,9 +1340,21 @@ pub fn run(tier: Tier) -> i32 {
         for (tname, tdefs, is_num) in types {
             // (how the hole is written, statements put before the body)
             let mut holes: Vec<(&str, &str)> = if is_num {
-                vec![("true", ""), ("()", ""), ("[1]", ""), ("kb", "  let kb = true;\n"), ("(1, 2)", "")]
+                vec![("true", ""), ("()", ""), ("[1]", ""), ("kb", "  let kb = true;\n"), ("(1, 2)", ""), ("!true", ""), ("!kb", "  let kb = true;\n"), ("!(kb == kb)", "  let kb = true;\n"), ("!(kb && kb)", "  let kb = true;\n")]
             } else {
-                vec![("1", ""), ("0", ""), ("k", "  let k = 1;\n"), ("-1", ""), ("kn", "  let kn = -1;\n")]
+                vec![
+                    ("1", ""),
+                    ("0", ""),
+                    ("k", "  let k = 1;\n"),
+                    ("-1", ""),
+                    ("kn", "  let kn = -1;\n"),
+                    // a unary operator at the root of the mismatching expression
+                    ("!1", ""),
+                    ("!k8", "  let k8 = 1u8;\n"),
+                    ("-ki", "  let ki = 1i8;\n"),
+                    ("!(k8 + k8)", "  let k8 = 1u8;\n"),
+                    ("-(ki)", "  let ki = 1i8;\n"),
+                ]
             };
             if tname == "bool" {
                 holes.push(("()", ""));
